@@ -77,7 +77,9 @@ func (g *bundleGen) plantPlus() {
 			g.addRootOp("/deepuse", obj{"$ref": mkRef("", t...)})
 		}
 	}
-	if g.on("plusPtrInPtr") {
+	if g.on("plusPtrInPtr") && r.P(40) {
+		g.plantNestedPointers()
+	} else if g.on("plusPtrInPtr") {
 		switch r.Intn(3) {
 		case 0: // a shared response whose schema points to itself
 			rd.responses["selfPtr"] = obj{"description": "self", "schema": obj{"$ref": "#/responses/selfPtr/schema"}}
@@ -97,7 +99,7 @@ func (g *bundleGen) plantPlus() {
 			"a": obj{"$ref": "#/definitions/rhoLoop/properties/b"}, "b": obj{"$ref": "#/definitions/rhoLoop/properties/a"}}})
 		g.addRootDef("rhoChain", obj{"type": "object", "properties": obj{"entry": obj{"$ref": "#/definitions/rhoLoop/properties/a"}}})
 		for i := 0; i < r.Range(1, 4); i++ {
-			g.addRootDef(fmt.Sprintf("rhoTail%d", i), obj{"type": "object", "properties": obj{"t": obj{"$ref": "#/definitions/rhoChain/properties/entry"}}})
+			g.addRootDef(fmt.Sprintf("aRhoTail%d", i), obj{"type": "object", "properties": obj{"t": obj{"$ref": "#/definitions/rhoChain/properties/entry"}}})
 		}
 		if r.P(50) {
 			g.addRootOp("/rho", obj{"$ref": "#/definitions/rhoChain/properties/entry"})
